@@ -183,8 +183,7 @@ def entries : List Entry := [
         let b ← fromHex h
         if b.length < 8 then pure "*" else
         let k := leNat (b.take 8)
-        let r := s!"ok {k} {specTimeOfTicks Spec.sec1601 k}"
-        pure (if k == 0 then r ++ " #kc.tick0-is-now" else r)
+        pure s!"ok {k} {specTimeOfTicks Spec.sec1601 k}"
       | _ => none },
   { kind := "M", op := "c15.kc.tobin", run := fun
       | [a, b] => do let (s, n) ← timeArgs a b; pure (okHex (convertToBinaryTime s n))
@@ -206,8 +205,7 @@ def entries : List Entry := [
         let s ← intArg a; let n ← natArg b
         let k := Spec.ticksOfTime Spec.sec1601 ⟨s, n⟩
         if !inU64 k then pure "*" else
-        let r := s!"ok {k} {showTime (Spec.trunc100 ⟨s, n⟩)}"
-        pure (if k == 0 then r ++ " #kc.tick0-is-now" else r)
+        pure s!"ok {k} {showTime (Spec.trunc100 ⟨s, n⟩)}"
       | _ => none },
   -- UUID v1 / v2 --------------------------------------------------------------------------------
   { kind := "M", op := "c15.uuid1.gettime", run := fun
